@@ -144,6 +144,18 @@ func (ss *sess) fail(key, what string) {
 	ss.ctx.Violation(key, what, map[string]any{"history_tail": h})
 }
 
+// outward32 rounds x to float32 towards +inf (up) or -inf.
+func outward32(x float64, up bool) float32 {
+	f := float32(x)
+	if up && float64(f) < x {
+		return math.Nextafter32(f, float32(math.Inf(1)))
+	}
+	if !up && float64(f) > x {
+		return math.Nextafter32(f, float32(math.Inf(-1)))
+	}
+	return f
+}
+
 func ulp32(x float64) float64 {
 	f := float32(x)
 	n := math.Nextafter32(f, float32(math.Inf(1)))
@@ -262,7 +274,9 @@ func (ss *sess) recompute(when string) bool {
 				for _, p := range []pair{{"minx", gminx, minx}, {"miny", gminy, miny}, {"maxx", gmaxx, maxx}, {"maxy", gmaxy, maxy}} {
 					if p.got != p.want {
 						dev := math.Abs(p.got - p.want)
-						if dev <= ulp32(p.want) {
+						// the index keeps rectangles as float32 rounded outwards (minima down, maxima
+						// up): two coordinates tie there when that rounding gives the same float32
+						if dev <= ulp32(p.want) || outward32(p.got, p.name[:3] == "max") == outward32(p.want, p.name[:3] == "max") {
 							ss.ctx.Violation("bounds-float32-tie", fmt.Sprintf("%s: BOUNDS %q %s = %v, true extreme %v (deviation %g below one float32 step)", when, k, p.name, p.got, p.want, dev), nil)
 						} else {
 							ss.fail("bounds-wrong", fmt.Sprintf("%s: BOUNDS %q %s = %v, recomputed from the objects %v", when, k, p.name, p.got, p.want))
@@ -654,7 +668,7 @@ func nameSet(hist [][]string) map[string]bool {
 // Run is the C19 check.
 func Run(ctx *core.Ctx) {
 	ctx.Rule = "model-tracked histories over 4 collections x 6 ids with hostile names, biased to writes: kind-changing overwrites (string <-> point/bounds/hash/GeoJSON incl. empty geometries), field churn, TTL set/clear, short TTLs that expire, RENAME/RENAMENX/DROP/PDEL/FLUSHDB, JSET/JDEL; every 40 commands the in-process AUDIT (id tree vs spatial/value/expiry indexes, the four counters, hook registries, group maps); every 100 commands and at the end: STATS per key, SERVER totals, SCAN COUNT, SEARCH COUNT, KEYS, BOUNDS recomputed from the SCAN dump; every string found by SEARCH, every non-empty geometry by whole-world WITHIN/INTERSECTS and unbounded NEARBY, and nothing else returned; at the end in_memory_size / num_points compared with a fresh server holding one SET per object. non-trivial = a state-changing command applied to an existing or new object; distinct key = (object kind before -> after) for overwrites, (command, object kind) otherwise"
-	ctx.Assumptions = []string{"a BOUNDS-born rectangle counts 2 points (tile38's convention), every other geometry its GeoJSON positions", "deviations of BOUNDS below one float32 step are the listed finding bounds-float32-tie"}
+	ctx.Assumptions = []string{"a BOUNDS-born rectangle counts 2 points (tile38's convention), every other geometry its GeoJSON positions", "deviations of BOUNDS between coordinates that the index's outward float32 rounding maps to the same value (or below one float32 step) are the listed finding bounds-float32-tie"}
 	bin, err := srv.Build("plain")
 	if err != nil {
 		ctx.Fatal("%v", err)
